@@ -11,7 +11,7 @@ open PP PP.Sexp PP.Settings
               ((name v)...) ((name v)...) ((ws copyDef)...) ((ws copyDef)...) gen)
   cacheKind ::= null | unbounded | (fifo n)        memoKind ::= dict | unbounded | (lru n)
   parseSel  ::= nocache | cache
-  cmd    ::= enter | exit | (setws s) | (setkw s) | (lit n) | (verbose b) | (packrat size force)
+  cmd    ::= enter | reenter | exit | exitcopy | restorelast | (setws s) | (setkw s) | (lit n) | (verbose b) | (packrat size force)
            | (lr cap force) | (disable) | (reset) | (diag name b) | (allwarn) | (compat name b)
            | (compatassign name b) | (new) | (copy i) | (exprws i s b) | (wrap i)          size/cap ::= None | int
   err    ::= ok | RuntimeError | NotImplementedError | ValueError | AttributeError
@@ -74,8 +74,11 @@ def state? : Sexp → Option State
   | _ => none
 
 def cmd? : Sexp → Option Cmd
-  | .atom "enter" => some .enter
-  | .atom "exit" => some .exit
+  | .atom "enter" => some (.enter false)
+  | .atom "reenter" => some (.enter true)
+  | .atom "exit" => some (.exit false)
+  | .atom "exitcopy" => some (.exit true)
+  | .atom "restorelast" => some .restoreLast
   | .list [.atom "setws", .str s] => some (.op (.setDefaultWs s))
   | .list [.atom "setkw", .str s] => some (.op (.setKwChars s))
   | .list [.atom "lit", n] => do pure (.op (.inlineLiterals (← n.nat?)))
@@ -130,7 +133,7 @@ def settingsHandle : List Sexp → Option Sexp
       let cfg ← cfg? cfg
       let st ← state? st
       let cmds ← cmds.mapM cmd?
-      let tr := trace cfg cmds { st := st, stack := [], ctxErr := false }
+      let tr := trace cfg cmds { st := st, stack := [], ctxErr := false, last := none }
       pure (.list (tr.map fun r =>
         .list [ofState r.1.st, ofErr r.2, ofNat r.1.stack.length, ofBool r.1.ctxErr]))
   | [.atom "settings-canon", .str s] => pure (ofChars (pySet s))
